@@ -25,6 +25,7 @@ U19 = ("u19_parse_trace", {})
 U20 = ("u20_roundtrip", {})
 U21 = ("u21_autotraits", {})
 U22 = ("u22_uuid", {})
+U23 = ("u23_same_entry", {})
 U12M = ("u12_text_trace", {"which": "mapper"})
 U12C = ("u12_text_trace", {"which": "cache"})
 U3 = ("u3_interpretation", {})
@@ -43,7 +44,7 @@ BUILDERS_ASSUMED = ("builders: both are verified as wholes -- the loop plumbing 
 PROPS = {
     "C01": {
         "title": "Line-based retrace returns exactly the recorded call stack",
-        "units": [U1F, U2F, U3, U6M, U6W, U13, U15, U18],
+        "units": [U1F, U2F, U3, U6M, U6W, U13, U15, U18, U23],
         "kani": [],
         "technique": "Verus (Z3) function contracts on mechanically extracted reader code: iterate_with_lines/next == head of spec retrace(); remap_frame == exact entry block",
         "level_text": "Deductive proof, for all field values / slice lengths / iterations, that both readers' frame iterators yield exactly "
@@ -58,7 +59,7 @@ PROPS = {
     },
     "C02": {
         "title": "A cache written from a mapping answers every query exactly like the mapper",
-        "units": [U1F, U2F, U8, U3, U6M, U6W, U13, U14, U15, U20],
+        "units": [U1F, U2F, U8, U3, U6M, U6W, U13, U14, U15, U20, U23],
         "kani": [],
         "technique": "refinement: both readers proved (Verus) against the SAME spec functions retrace/by_params/unanimous through abs_member / abs_mm",
         "level_text": "Both readers are verified against one shared abstract model, so equal abstract entries give equal answers for remap_class, "
@@ -334,8 +335,9 @@ PROPS["C02"]["level_text"] = (
     "and the reader accepts every such file and reads back exactly the emitted tables (u20, pure lemma over the two specifications, modulo the Pod round trip). "
     "Pure lemma (u13): the line-based content of the mapper (class fields and every per-name entry list) is the same with and without the parameter index. "
     "Text remapping and signature deobfuscation are equal for mapper and cache relative to equal remap_class / remap_frame answers (C07, C16). "
-    "NOT proved: that the two abstract folds `built` and `w_run` denote the same entries (two parallel definitions), and what the string table returns for an offset (watto).")
-PROPS["C02"]["not_decided"] = ["the refinement between the two abstract folds `built` (mapper) and `w_run` (writer) as a lemma",
+    "Pure lemma (u23): for every method record in the domain, abs_member(table bytes, stored_member(..)) == abs_mm(stored_entry(..)) -- the two builders store the same abstract entry, given the string-table round trip. "
+    "NOT proved: that the two abstract folds `built` and `w_run` put these entries at the same positions (two parallel definitions), and what the string table returns for an offset (watto).")
+PROPS["C02"]["not_decided"] = ["the positional refinement between the two abstract folds `built` (mapper) and `w_run` (writer) as a lemma (the per-record entries are proved equal in u23)",
                                "that watto's string table returns the inserted string for the offset it handed out (offset_of / tbl)"]
 PROPS["C09"]["level_text"] = PROPS["C09"]["level_text"].replace(
     "Sortedness of classes/members and the contents of the string section come from BTreeMap iteration order and watto::StringTable inside the collection loop and are assumed; `test()` accepting every such file is not decided.",
